@@ -241,18 +241,30 @@ def judge(ty, s, rep, sh):
 
 
 def shard_run(arg):
-    ty, items = arg
+    """arg = list of (type, items): one executor process handles several types in turn, in small alternating batches
+    (a process that only ever parses one type would hide state shared between the types)."""
+    work = arg
     sh = vp.Shard()
     mon = vp.Mon("parse")
     try:
-        for i in range(0, len(items), 1000):
-            chunk = items[i:i + 1000]
-            rep = mon.call({"op": "batch", "type": ty, "items": [[hx(s.encode()), hx(doc_for(s).encode())] for s in chunk]})
-            for s, r in zip(chunk, rep["results"]):
-                judge(ty, s, r, sh)
-        if items:
-            s = items[len(items) // 2]
-            sh.sample({"type": ty, "input": repr(s), "spec_verdict": RECS[ty](s)}, cap=1)
+        pos = {ty: 0 for ty, _ in work}
+        live = True
+        while live:
+            live = False
+            for ty, items in work:
+                i = pos[ty]
+                if i >= len(items):
+                    continue
+                live = True
+                chunk = items[i:i + 400]
+                pos[ty] = i + 400
+                rep = mon.call({"op": "batch", "type": ty, "items": [[hx(s.encode()), hx(doc_for(s).encode())] for s in chunk]})
+                for s, r in zip(chunk, rep["results"]):
+                    judge(ty, s, r, sh)
+        for ty, items in work[:1]:
+            if items:
+                s = items[len(items) // 2]
+                sh.sample({"type": ty, "input": repr(s), "spec_verdict": RECS[ty](s)}, cap=1)
     finally:
         mon.close()
     return sh.dict()
@@ -406,11 +418,13 @@ def run(tier, seed, work):
     mout = {}
     th = threading.Thread(target=macro_route, args=(work, lits, mout))
     th.start()
+    nsh = vp.NCPU
+    isplit = {ty: vp.split(ident, nsh) for ty in NEWTYPES}
+    vsplit = {ty: vp.split(vers, nsh) for ty in ("version", "api")}
     shards = []
-    for ty in NEWTYPES:
-        shards += [(ty, s) for s in vp.split(ident, 4)]
-    for ty in ("version", "api"):
-        shards += [(ty, s) for s in vp.split(vers, 8)]
+    for k in range(nsh):
+        order = NEWTYPES[k % 4:] + NEWTYPES[:k % 4]          # every type is the first one parsed in some process
+        shards.append([(ty, isplit[ty][k] if k < len(isplit[ty]) else []) for ty in order] + [(ty, vsplit[ty][k] if k < len(vsplit[ty]) else []) for ty in ("version", "api")])
     for d in vp.pmap(shard_run, shards):
         res.merge(d)
     display_checks(res)
